@@ -1108,7 +1108,7 @@ type attributeCacheKey struct {
 
 // attributeCacheEntry represents a cached attribute lookup result
 type attributeCacheEntry struct {
-	fieldIndex  int       // Index of the field (-1 if not a field)
+	fieldIndex  []int     // Index path of the field, through embedded structs for promoted fields (nil if not a field)
 	isMethod    bool      // Whether this is a method
 	methodIndex int       // Index of the method (-1 if not a method)
 	ptrMethod   bool      // Whether the method is on the pointer type
@@ -1322,7 +1322,7 @@ func (ctx *RenderContext) getAttribute(obj interface{}, attr string) (interface{
 
 			// Create a new entry with current timestamp
 			entry = attributeCacheEntry{
-				fieldIndex:  -1,
+				fieldIndex:  nil,
 				methodIndex: -1,
 				lastAccess:  time.Now(),
 				accessCount: 1,
@@ -1331,7 +1331,9 @@ func (ctx *RenderContext) getAttribute(obj interface{}, attr string) (interface{
 			// Look for a field
 			field, found := objType.FieldByName(attr)
 			if found {
-				entry.fieldIndex = field.Index[0] // Assuming single-level field access
+				// The whole index path: a field promoted from an embedded
+				// struct lies below the embedded field
+				entry.fieldIndex = field.Index
 			}
 
 			// Look for a method on the value
@@ -1360,9 +1362,10 @@ func (ctx *RenderContext) getAttribute(obj interface{}, attr string) (interface{
 	// Use the cached lookup information to get the attribute
 
 	// Try field access first
-	if entry.fieldIndex >= 0 {
-		field := objValue.Field(entry.fieldIndex)
-		if field.IsValid() && field.CanInterface() {
+	if entry.fieldIndex != nil {
+		// FieldByIndexErr reports a nil embedded pointer on the path instead of panicking
+		field, err := objValue.FieldByIndexErr(entry.fieldIndex)
+		if err == nil && field.IsValid() && field.CanInterface() {
 			return field.Interface(), nil
 		}
 	}
